@@ -388,3 +388,44 @@ def _viewbox_oracle(name, doc, out, exc, kw):
 
 
 _mk("C19", "viewbox", ("structural",), _viewbox_oracle, "converted documents re-framed by a random viewBox, clip_to_viewbox vs the reference evaluator (inside: same colour, outside: nothing); bounding boxes vs the tight box of the finely flattened curve")
+
+
+# ------------------------------------------------------------------------------------------------ C18: pruning on whole documents, called directly
+def _prune_run(tier, seed):
+    """remove_unpainted_shapes() / remove_empty_subpaths() called directly on a parsed document (not through topicosvg, i.e.
+    with styles, groups and use elements still in place) must not change what is painted."""
+    from bounded import corpus, gen, refrender
+    from picosvg.svg import SVG
+
+    res = ComponentResult()
+    n = 16 if tier == "quick" else 400
+    res.rule = "composited colour at grid points of the document before vs after SVG.remove_unpainted_shapes() and SVG.remove_empty_subpaths(), each called directly on the parsed source"
+    res.bound = f"{n} generated cascade / structural documents (seed {seed}) + corpus + pinned documents"
+    docs = [(f"pinned:{k}", corpus.PINNED[k]) for k in ("group_style_hides_but_child_paints",)]
+    docs += [(f"corpus:{k}", v) for k, v in corpus.DOCS.items()]
+    for fam in ("cascade", "structural"):
+        docs += list(gen.documents(fam, seed, n // 2))
+    distinct = set()
+    for name, doc in docs:
+        for op in ("remove_unpainted_shapes", "remove_empty_subpaths"):
+            res.evaluations += 1
+            try:
+                out = getattr(SVG.fromstring(doc), op)().tostring()
+            except Exception:  # noqa - only normal returns are constrained
+                continue
+            distinct.add(out)
+            try:
+                cnt, bad = refrender.compare(doc, out, stroke=True)
+            except Exception as e:  # noqa
+                res.errors.append(f"oracle crashed on {name}: {type(e).__name__}: {e}")
+                continue
+            if bad:
+                pnt, want, got = bad[0]
+                key = f"prune.render:{name}:{op}" if name.startswith(("pinned:", "corpus:")) else f"prune.render:{op}:{name}"
+                res.findings.append(Finding(key=key, text=f"{name}: {op}() changes the picture: {len(bad)} of {cnt} sample points differ, e.g. at ({pnt[0]:.2f},{pnt[1]:.2f}) {want} became {got}",
+                                            replay=dict(doc=doc, name=name, op=op), confirmed=True))
+    res.distinct_nontrivial = len(distinct)
+    return res
+
+
+component("C18", "prune.render", "bounded")(_prune_run)
